@@ -67,7 +67,8 @@ Definition sexp_out (o : out) : sexp :=
   | RDirs l => SList [ssym "ok"; SList (ssym "dirs" :: map sexp_info (sort_by i_name l))]
   | RCount n => SList [ssym "ok"; SNum n]
   | RStat i => SList [ssym "ok"; SList [ssym "stat"; sexp_info i]]
-  | RTab l => SList [ssym "ok"; SList (ssym "tab" :: map sexp_row (sort_by (fun r => fst (fst (fst (fst r)))) l))]
+  | RTab l g => SList [ssym "ok"; SList (ssym "tab" :: map sexp_row (sort_by (fun r => fst (fst (fst (fst r)))) l));
+                       SList (ssym "gone" :: map (fun r => let '(qp, nref, nk) := r in SList [snat qp; SNum nref; SNum nk]) g)]
   end.
 
 Definition sexp_res (r : res out) : sexp :=
